@@ -15,10 +15,11 @@ Open Scope N_scope.
     - the session is bound to [f], the NOC's node id and the NOC's CATs, and its keys derive from the
       transcript (m1, own Sigma2, m3). *)
 Definition responder_full_sound (st : node) (fr : fresh) (m1 m3 : msg) (s : session) : Prop :=
-  exists (q : sigma1) (f : fabric) (m2 : msg) (noc : cert) (icac : option cert) (sig : term) (peer : N) (cats : list N),
+  exists (q : sigma1) (f : fabric) (noc : cert) (icac : option cert) (sig : term) (peer : N) (cats : list N),
     parse_sigma1 m1 = Ok q /\
     get_by_dest_id (n_fabrics st) (g1_random q) (g1_dest q) = Some f /\
     In f (n_fabrics st) /\
+    let m2 := build_sigma2 f fr (g1_pub q) (msg_term m1) in   (* the Sigma2 this run sent *)
     let our_pub := TPub (TNonce (fr_eph fr)) in
     let shared := dh (TNonce (fr_eph fr)) (g1_pub q) in
     let s12 := h12 (msg_term m1) (msg_term m2) in
@@ -48,11 +49,13 @@ Definition responder_resume_sound (st : node) (m1 : msg) (s : session) : Prop :=
     carried (under this run's S2K) a chain valid for that fabric whose NOC names [peer], and the NOC
     key's signature over (noc, icac, responder ephemeral key of [m2], own ephemeral key). *)
 Definition initiator_full_sound (st : node) (fr : fresh) (fab peer : N) (m1 m2 : msg) (s : session) : Prop :=
-  exists (f : fabric) (rr rpub : term) (noc : cert) (icac : option cert) (sig rid : term) (cats : list N) (m3 : msg),
+  exists (f : fabric) (rr rpub : term) (noc : cert) (icac : option cert) (sig rid : term) (cats : list N),
     get_fabric fab (n_fabrics st) = Some f /\
     get_req m2 1 KBytes = Ok rr /\ get_req m2 3 KBytes = Ok rpub /\
     let own_pub := TPub (TNonce (fr_eph fr)) in
     let shared := dh (TNonce (fr_eph fr)) rpub in
+    (* the Sigma3 this run sent *)
+    let m3 := build_sigma3 f own_pub rpub (msg_term m1) (msg_term m2) shared in
     get_req m2 4 KBytes = Ok (TAead (s2k (f_ipk f) rr rpub (h1 (msg_term m1)) shared) (TNum NONCE_S2)
                                     (tbe2_plain noc icac sig rid)) /\
     case_valid (n_clock st) (f_fid f) (f_root f) noc icac /\
